@@ -210,6 +210,10 @@ func checkC17(c *an.Ctx) {
 		c.Und("C17.2", "config:error-sites", token.NoPos, "only %d error-returning calls found in the loading functions", nCalls)
 	}
 
+	// a broken import fails the load also for the callers that tolerate "no configuration file": the
+	// tolerated sentinel never stands for the absence of an imported file
+	toleratedSentinels(c, "C17.2", true)
+
 	// C17.3 (call sites in load itself or in a helper of the package it calls; values are followed through helper parameters)
 	importScope := p.Reach([]*ssa.Function{ld}, func(e an.CallEdge) bool {
 		return an.Outer(e.Callee).Pkg == ld.Pkg && e.Callee != ldir && e.Callee != ld
